@@ -370,6 +370,28 @@ let s_macfg g obs =
     | _ -> if obs = "err" then "ok" else "bad:configuration-check-" ^ obs in
   (model, verdict)
 
+(* the six packet types of the gateway protocol: GwPacket.MarshalBinary / UnmarshalBinary themselves *)
+let s_gwcodec g obs =
+  if g "dir" = "u" then begin
+    let model = match gw_unmarshal (getb g "data") with
+      | Ok p -> Printf.sprintf "ok:%d:%d:%d:%s:%s" (int_of_n p.gp_ver) (int_of_n p.gp_token) (int_of_n p.gp_ident) (hex_of_n p.gp_eui) (hex_of_bytes p.gp_json)
+      | _ -> "err" in
+    (model, if obs = "PANIC" then "bad:datagram-decoder-panics" else "ok")
+  end else begin
+    let p = { gp_ver = getn g "ver"; gp_token = getn g "token"; gp_ident = getn g "ident"; gp_eui = n_of_hex (g "eui"); gp_json = getb g "json" } in
+    let ident = geti g "ident" in
+    let model = match gw_marshal p with
+      | Ok b -> "ok:" ^ hex_of_bytes b ^ ":1"
+      | _ -> "err" in
+    let verdict =
+      if ident >= 0 && ident <= 5 then
+        (match String.split_on_char ':' obs with
+         | ["ok"; _; "1"] -> "ok"
+         | _ -> "bad:packet-type-does-not-survive-encode-decode")
+      else if obs = "PANIC" then "bad:datagram-encoder-panics" else "ok" in
+    (model, verdict)
+  end
+
 (* ---- forced schedules (C03, C05, C07, C09) ---- *)
 let s_sched which g obs =
   if obs = "HUNG" then ("?", "bad:sched-hung") else
@@ -450,6 +472,7 @@ let register_all register =
   List.iter (fun c -> register ("sched" ^ c) (s_sched c)) ["C03"; "C04"; "C05"; "C06"; "C07"; "C09"; "C17"];
   register "keygen" s_keygen;
   register "macfg" s_macfg;
+  register "gwcodec" s_gwcodec;
   register "registry" Regsuite.s_registry;
   register "codec" Regsuite.s_codec;
   register "router" s_router;
